@@ -2,6 +2,7 @@
   C06 — StepFacts for every event of the lock machine.
 -/
 import TdVerif.Lemmas.C06Step
+import TdVerif.Lemmas.C05Shallow
 import TdVerif.Props.C05
 
 namespace TdVerif.C06
@@ -180,5 +181,20 @@ theorem facts_stepLive (s : State) (hinv : Inv s.heap) (e : Ev) (hok : Props.C05
       split
       · exact facts_of_le (lockEv_le _ i) (lockEv_struct _ i) _ _
       · exact StepFacts.refl _ _ _
+  | unlockShallow i =>
+    have g := ht i rfl
+    have he : erasedBy s (.unlockShallow i) = [i] := by simp [erasedBy, unlockTarget, g.1, g.2]
+    rw [he]
+    show StepFacts s.heap (unlockShallowEv s.heap i).1 [i] _
+    rcases unlockShallowEv_cases s.heap i with e | ⟨_, e⟩ | ⟨_, e, _⟩
+    · rw [e]; exact StepFacts.refl _ _ _
+    · rw [e]; exact facts_of_le (propLockF_le _ _ _ _) (propLockF_struct _ _ _ _) _ _
+    · rw [e]
+      have st : SameStruct s.heap (s.heap.upd i (fun x => { x with flag := some false, parents := [] })) := by
+        apply sameStruct_upd; intro x; exact ⟨rfl, rfl⟩
+      refine ⟨fun p _ _ _ => st.content p, fun o _ _ => st o, fun p hp => ?_, Nat.le_refl _⟩
+      by_cases hpi : p = i
+      · exact .inl (by simp [hpi])
+      · right; unfold live flagged at hp ⊢; rw [upd_node_ne _ _ _ _ hpi] at hp; exact hp
 
 end TdVerif.C06
